@@ -86,6 +86,21 @@ def run(tier, seed):
                 v.note(f"{it['ty']} value reported as not serialisable: {res['detail'][:80]}")
         if types[it["ty"]] == 1 and len(v.cov["samples"]) < 6:
             v.sample({"type": it["ty"], "value": o.get("value")})
+    if tier == "thorough":
+        rp = os.path.join(lib.outdir(PID), "random_obs.ndjson")
+        lib.harness(["serde-rt-random", seed, 3000, rp], timeout=1800)
+        rr = lib.read_ndjson(rp)
+        summ = [x for x in rr if x.get("summary")]
+        if not summ:
+            raise lib.ToolError("random round-trip run did not finish")
+        v.cov["evaluations"] += summ[0]["values"]
+        v.cov["random_values"] = summ[0]["values"]
+        for x in rr:
+            if x.get("summary"):
+                continue
+            for path in ("term", "bytes"):
+                if x[path]["k"] not in ("same", "ser_error"):
+                    v.violation(f"random {x['ty']} value did not survive the {'to_term/from_term' if path == 'term' else 'to_bytes/from_bytes'} round trip", {"type": x["ty"], "value": x["value"], "result": x[path]})
     v.cov["types"] = types
     v.cov["rule"] = ("TLC enumerates, for each of 36 concrete Rust types (all integer widths, f32/f64, bool, char, String, (), Option, Vec, tuples, BTreeMap/HashMap with string and integer keys, "
                      "plain and ElixirStruct-derived structs, an enum with the four variant shapes, two-level nestings), the boundary values of Serde.tla (type min / max, +-2^31 and +-2^63 neighbours, "
